@@ -142,7 +142,7 @@ func loadEnvInternal(env map[string]string, prefix string, prv reflect.Value) er
 			mapKeyLower := strings.ToLower(mapKey)
 			nv := prv.Elem().MapIndex(reflect.ValueOf(mapKeyLower))
 			zero := reflect.Value{}
-			if nv == zero {
+			if nv == zero || nv.IsNil() {
 				nv = reflect.New(rt.Elem().Elem())
 				prv.Elem().SetMapIndex(reflect.ValueOf(mapKeyLower), nv)
 			}
@@ -178,6 +178,9 @@ func loadEnvInternal(env map[string]string, prefix string, prv reflect.Value) er
 		case rt.Elem() == reflect.TypeOf(""):
 			if ev, ok := env[prefix]; ok {
 				if ev == "" {
+					if prv.IsNil() {
+						prv.Set(reflect.New(rt))
+					}
 					prv.Elem().Set(reflect.MakeSlice(prv.Elem().Type(), 0, 0))
 				} else {
 					if prv.IsNil() {
@@ -191,6 +194,9 @@ func loadEnvInternal(env map[string]string, prefix string, prv reflect.Value) er
 		case rt.Elem() == reflect.TypeOf(uint(0)):
 			if ev, ok := env[prefix]; ok {
 				if ev == "" {
+					if prv.IsNil() {
+						prv.Set(reflect.New(rt))
+					}
 					prv.Elem().Set(reflect.MakeSlice(prv.Elem().Type(), 0, 0))
 				} else {
 					if prv.IsNil() {
@@ -216,6 +222,9 @@ func loadEnvInternal(env map[string]string, prefix string, prv reflect.Value) er
 		case rt.Elem() == reflect.TypeOf(float64(0)):
 			if ev, ok := env[prefix]; ok {
 				if ev == "" {
+					if prv.IsNil() {
+						prv.Set(reflect.New(rt))
+					}
 					prv.Elem().Set(reflect.MakeSlice(prv.Elem().Type(), 0, 0))
 				} else {
 					if prv.IsNil() {
@@ -240,6 +249,9 @@ func loadEnvInternal(env map[string]string, prefix string, prv reflect.Value) er
 
 		case rt.Elem().Kind() == reflect.Struct:
 			if ev, ok := env[prefix]; ok && ev == "" { // special case: empty list
+				if prv.IsNil() {
+					prv.Set(reflect.New(rt))
+				}
 				prv.Elem().Set(reflect.MakeSlice(prv.Elem().Type(), 0, 0))
 			} else {
 				for i := 0; ; i++ {
